@@ -113,6 +113,8 @@ def run(ck, tier):
     _mp.run(ck, F, 'C13')
     from . import accum as _acc2
     _acc2.run2(ck, F, 'C13')
+    from . import relations as _rel
+    _rel.run(ck, F, 'C13')
     from . import accum as _acc
     _acc.run(ck, F, 'C13')
     from . import c13x
